@@ -140,10 +140,20 @@ impl wire::Decode for NodeAnnouncement {
         let alias = wire::Decode::decode(reader)?;
         let addresses = BoundedVec::<Address, ADDRESS_LIMIT>::decode(reader)?;
         let nonce = u64::decode(reader)?;
-        let agent = match UserAgent::decode(reader) {
-            Ok(ua) => ua,
+        // N.b. the user agent is optional, for backwards compatibility: it is absent if the
+        // announcement ends here. An announcement that ends *inside* the field is truncated.
+        let agent = match u8::decode(reader) {
             Err(e) if e.is_eof() => UserAgent::default(),
             Err(e) => return Err(e),
+            Ok(len) => {
+                let mut bytes = vec![0; len as usize];
+                reader.read_exact(&mut bytes)?;
+
+                let agent = String::from_utf8(bytes)?;
+                agent
+                    .parse::<UserAgent>()
+                    .map_err(wire::Error::InvalidUserAgent)?
+            }
         };
 
         Ok(Self {
